@@ -35,12 +35,19 @@ func corpus(e *ev.Env, w *witnesses) {
 		all("seq-replay-keep-shape-"+shapes[b].name, sc, faultPlan{})
 	}
 	// H1 of DESIGN 3.C17: Storage.Set fails after the handler completed; the retry executes again
-	all("set-fault-then-retry", seq(dup("POST"), dup("POST")), faultPlan{"set", 1})
+	all("set-fault-then-retry", seq(dup("POST"), dup("POST")), faultPlan{Kind: "set", N: 1})
 	// fault clause
-	all("lock-fault-then-retry", seq(dup("POST"), dup("POST")), faultPlan{"lock", 1})
-	all("get-fault-then-retry", seq(dup("POST"), dup("POST")), faultPlan{"get", 1})
-	all("recheck-get-fault-then-retry", seq(dup("POST"), dup("POST")), faultPlan{"get", 2})
-	all("unlock-fault-then-retry", seq(dup("POST"), dup("POST")), faultPlan{"unlock", 1})
+	all("lock-fault-then-retry", seq(dup("POST"), dup("POST")), faultPlan{Kind: "lock", N: 1})
+	all("get-fault-then-retry", seq(dup("POST"), dup("POST")), faultPlan{Kind: "get", N: 1})
+	all("recheck-get-fault-then-retry", seq(dup("POST"), dup("POST")), faultPlan{Kind: "get", N: 2})
+	all("unlock-fault-then-retry", seq(dup("POST"), dup("POST")), faultPlan{Kind: "unlock", N: 1})
+	// the record comes back undecodable for the second request (both of its lookups), healthy
+	// again for the third; and damaged only at the re-check of a concurrent duplicate
+	for _, m := range dataModes {
+		all("undecodable-record-then-retry-"+m, seq(dup("POST"), dup("POST"), dup("PUT")), faultPlan{Kind: "getdata", N: 2, Data: m, Span: 2})
+	}
+	all("undecodable-record-at-recheck", scenario{Reqs: pairs[0], ShapeBase: 1}, faultPlan{Kind: "getdata", N: 4, Data: "trunc-half", Span: 1})
+	all("undecodable-record-at-recheck-3", scenario{Reqs: pairs[0], ShapeBase: 2}, faultPlan{Kind: "getdata", N: 3, Data: "badfirst", Span: 1})
 	// H2: replay adds recorded headers on top of what is already on the response
 	up := seq(dup("POST"), dup("POST"))
 	up.Upstream = true
